@@ -466,6 +466,9 @@ def drive_with_core_run(duration):
         core.asyncore.loop = orig
 
 
+KINDS = [0]
+
+
 def deferred_batch(run, n, raising, nesting, raise_after_defer, loop_kind, with_tasks=False):
     """n members; members in `raising` raise; members in `nesting` defer a child; raise_after_defer: nesting
     raisers raise after they deferred"""
@@ -496,9 +499,37 @@ def deferred_batch(run, n, raising, nesting, raise_after_defer, loop_kind, with_
         LIVE_TASKS.extend(ts)
         for t in ts:
             t.install_task(when=CLK.now)
+    # the callables handed to deferred() are of every kind Python has: plain function, lambda, bound method,
+    # functools.partial, object with __call__ (the last two have no __name__ / __qualname__)
+    import functools
+
+    class Obj(object):
+        def __init__(self, f):
+            self.f = f
+
+        def __call__(self):
+            return self.f()
+
+        def method(self):
+            return self.f()
+
+    KINDS[0] += 1
     for i in range(n):
         submitted.append("m%d" % i)
-        core.deferred(member(i))
+        f = member(i)
+        kind = (i + KINDS[0]) % 5
+        wit.setdefault("kinds", []).append(["function", "lambda", "method", "partial", "object"][kind])
+        if kind == 0:
+            core.deferred(f)
+        elif kind == 1:
+            core.deferred(lambda f=f: f())
+        elif kind == 2:
+            core.deferred(Obj(f).method)
+        elif kind == 3:
+            core.deferred(functools.partial(f))
+        else:
+            core.deferred(Obj(f))
+        run.seen("deferred_callable_kinds", wit["kinds"][-1] + ("/raising" if i in raising else ""))
     try:
         if loop_kind == "run_once":
             CLK.drive(duration=1, max_steps=10000)
